@@ -408,6 +408,26 @@ func (w *World) Origin(f *Fn, e ast.Expr) ast.Expr {
 	return e
 }
 
+// eqHolds: the guard asserts an equality (isEq) or an inequality (!isEq) between x and y,
+// whichever way it is spelled (`a == b` taken, `a != b` not taken, …); ok=false otherwise.
+func eqHolds(g Guard) (x, y ast.Expr, isEq bool, ok bool) {
+	be, isB := unparen(g.Cond).(*ast.BinaryExpr)
+	if !isB || (be.Op != token.EQL && be.Op != token.NEQ) {
+		return nil, nil, false, false
+	}
+	return be.X, be.Y, (be.Op == token.EQL) == g.Val, true
+}
+
+// eqOf: the guard asserts equality (want=true) or inequality (want=false) between an operand
+// satisfying a and one satisfying b, in either order.
+func eqOf(g Guard, want bool, a, b func(ast.Expr) bool) bool {
+	x, y, isEq, ok := eqHolds(g)
+	if !ok || isEq != want {
+		return false
+	}
+	return (a(unparen(x)) && b(unparen(y))) || (a(unparen(y)) && b(unparen(x)))
+}
+
 // soleCallSite: the only call site of an unexported, declared function (static, synchronous); nil otherwise.
 func (w *World) soleCallSite(f *Fn) *CallSite {
 	if f == nil {
